@@ -311,6 +311,16 @@ fn bit_positions(nbits: usize, full: bool, i: usize, sample: usize, salt: usize)
     }
 }
 
+/// created_at arrives as a decimal numeral: a string, or the spec's sequence of digits
+fn ts_of(v: &Value) -> u64 {
+    let s: String = match v {
+        Value::String(s) => s.clone(),
+        Value::Array(a) => a.iter().map(|d| char::from(b'0' + d.as_u64().expect("digit") as u8)).collect(),
+        _ => panic!("ts"),
+    };
+    s.parse::<u64>().expect("u64 created_at")
+}
+
 fn fields_of(c: &Value, k: &Keys) -> Fields {
     let pki = c["pk"].as_u64().expect("pk index") as usize;
     let mut pk = k.pk[pki - 1];
@@ -326,7 +336,7 @@ fn fields_of(c: &Value, k: &Keys) -> Fields {
     }
     Fields {
         pk,
-        ts: c["ts"].as_str().expect("ts").parse::<u64>().expect("u64 ts"),
+        ts: ts_of(&c["ts"]),
         kind: c["kind"].as_u64().expect("kind") as u16,
         tags: tags_of(&c["tags"]),
         content: cps_to_string(&c["content"]),
